@@ -142,7 +142,7 @@ def shard(p):
 def run(tier, seed):
     t0 = time.time()
     bins = {k: build.build(k)["vdriver"] for k in ("dbg", "rel")}
-    n, depth = (14000, 4) if tier == "quick" else (500000, 5)
+    n, depth = (40000, 4) if tier == "quick" else (500000, 5)
     payloads = [{"seed": seed, "shard": i, "n": n // NCPU, "depth": depth, "bin": bins["dbg"], "kind": "dbg"} for i in range(NCPU)]
     acc = run_shards(shard, payloads)
     return finish(PID, tier, seed, "exploration", acc, RULE, t0,
